@@ -911,6 +911,25 @@ def sum_option_int_eq(ex, st, func, args, dest_ty):
     e = z3.And(da == db, z3.Or(da == 0, pa == pb))
     return [(st, BoolV(e if m.group(2) == 'eq' else z3.Not(e)))]
 
+def sum_char_to_digit(ex, st, func, args, dest_ty):
+    """char::to_digit(radix) for radix 10 / 16: Some(value) for a digit of that radix, None otherwise"""
+    v = args[0]
+    while isinstance(v, RefV): v = st.heap[v.oid][v.key]
+    if not isinstance(v, BV) or len(args) < 2 or not isinstance(args[1], BV): return None
+    r = z3.simplify(args[1].t)
+    if not z3.is_bv_value(r) or r.as_long() not in (10, 16): return None
+    x = v.t if v.t.size() == 32 else z3.ZeroExt(32 - v.t.size(), v.t)
+    K = lambda n: z3.BitVecVal(n, 32)
+    dec = z3.And(z3.UGE(x, K(0x30)), z3.ULE(x, K(0x39))); lo = z3.And(z3.UGE(x, K(0x61)), z3.ULE(x, K(0x66))); up = z3.And(z3.UGE(x, K(0x41)), z3.ULE(x, K(0x46)))
+    isd = dec if r.as_long() == 10 else z3.Or(dec, lo, up)
+    val = z3.If(dec, x - K(0x30), z3.If(lo, x - K(0x61) + K(10), x - K(0x41) + K(10)))
+    out = []
+    if ex.feasible(st, isd):
+        s2 = st.clone(); s2.pc.append(isd); o = s2.new_obj(s2.fresh_name('digit'), dest_ty or 'Option<u32>'); s2.heap[o]['discr'] = BV(z3.BitVecVal(1, 64), True); s2.heap[o][('f', 'Some', 0)] = BV(val); out.append((s2, ObjV(o)))
+    if ex.feasible(st, z3.Not(isd)):
+        s2 = st.clone(); s2.pc.append(z3.Not(isd)); o = s2.new_obj(s2.fresh_name('nodigit'), dest_ty or 'Option<u32>'); s2.heap[o]['discr'] = BV(z3.BitVecVal(0, 64), True); out.append((s2, ObjV(o)))
+    return out
+
 def sum_box_uninit(ex, st, func, args, dest_ty):
     """Box::<[T; N]>::new_uninit(): a fresh box object (the first half of `vec![..]`)"""
     return [(st, ObjV(st.new_obj(st.fresh_name('box'), dest_ty or 'Box')))]
@@ -930,6 +949,7 @@ def sum_box_into_vec(ex, st, func, args, dest_ty):
     return [(st, seqobj(st, 'Vec', items))]
 
 GENERIC = [
+    (r'(^|::)char::to_digit$|<impl char>::to_digit$', sum_char_to_digit),
     (r'^<(std::option::)?Option<\w+> as PartialEq>::(eq|ne)$', sum_option_int_eq),
     (r'(^|::)(u8|char)::is_ascii(_\w+)?$|<impl (u8|char)>::is_ascii(_\w+)?$', sum_ascii_class),
     (r'^Box::<\[.*\]>::new_uninit$', sum_box_uninit), (r'box_assume_init_into_vec_unsafe::<', sum_box_into_vec),
